@@ -29,6 +29,7 @@ type sandbox struct {
 	oldwd                         string
 	oldtmp                        string
 	hadTmp                        bool
+	resets                        int
 }
 
 const (
@@ -110,7 +111,8 @@ func (sb *sandbox) destroy() {
 func (sb *sandbox) resetWD(state string) {
 	os.RemoveAll(sb.wd)
 	must(os.Mkdir(sb.wd, 0o755))
-	if ents, _ := os.ReadDir(sb.tmp); len(ents) > 0 {
+	if sb.resets++; sb.resets%128 == 0 { // the store removes its temporary files on Close; sweep leftovers now and then
+		ents, _ := os.ReadDir(sb.tmp)
 		for _, e := range ents {
 			os.RemoveAll(filepath.Join(sb.tmp, e.Name()))
 		}
@@ -425,4 +427,31 @@ func (sb *sandbox) wdListing() string {
 	}
 	walk(sb.wd, "", 0)
 	return strings.Join(lines, "\n")
+}
+
+// symlinksLeavingWD counts the symbolic links inside the working directory
+// that, followed to the end, name a place outside it.
+func (sb *sandbox) symlinksLeavingWD() int {
+	n := 0
+	var walk func(p string, depth int)
+	walk = func(p string, depth int) {
+		ents, err := os.ReadDir(p)
+		if err != nil || depth > 8 {
+			return
+		}
+		for _, e := range ents {
+			q := filepath.Join(p, e.Name())
+			if e.Type()&os.ModeSymlink != 0 {
+				if r, ok := physical(p, []string{e.Name()}); ok && !within(sb.wd, r) {
+					n++
+				}
+				continue
+			}
+			if e.IsDir() {
+				walk(q, depth+1)
+			}
+		}
+	}
+	walk(sb.wd, 0)
+	return n
 }
